@@ -48,6 +48,8 @@ class Sched:
         self.nwrites = 0
         self.writes_after_return = []
         self.returned = False
+        self.timeouts_fired = 0
+        self.timed_waits = 0
         self.main_tid = threading.get_ident()
         t = _T('main', self.main_tid)
         self.threads[self.main_tid] = t
@@ -91,7 +93,9 @@ class Sched:
     def finish_child(self):
         tid = threading.get_ident()
         with self.cv:
-            t = self.threads[tid]
+            # re-key the finished thread: the OS may hand its identifier to the next thread that is started
+            t = self.threads.pop(tid)
+            self.threads[('finished', len(self.threads), tid)] = t
             t.done, t.waiting = True, False
             if self.running == tid:
                 self.running = None
@@ -175,22 +179,84 @@ class Sched:
 
 def instrument(S):
     """Returns (QueueClass, ThreadClass) bound to scheduler S."""
-    RealQueue, RealThread = _queue.Queue, threading.Thread
+    RealQueue, RealThread, RealCondition = _queue.Queue, threading.Thread, threading.Condition
+
+    def _timed(a, k):
+        """(block, timeout) of a put/get call -> True when the call may return without the queue changing state:
+        non-blocking, or blocking with a finite timeout.  Under the scheduler time is virtual: a schedule in which the
+        other threads are not run for longer than the timeout is a schedule like any other, so a timed operation whose
+        condition does not hold when it is scheduled times out at once."""
+        block = k.get('block', a[0] if len(a) > 0 else True)
+        timeout = k.get('timeout', a[1] if len(a) > 1 else None)
+        return (not block) or timeout is not None
+
+    class ICond(RealCondition):
+        """The queue's own conditions.  The instrumented put/get/join never reach a wait (they run only when enabled);
+        a wait that is reached comes from code that uses the conditions directly, and is a scheduling point."""
+
+        def __init__(self, lock=None):
+            super().__init__(lock)
+            self._vz_gen = 0
+
+        def notify(self, n=1):
+            self._vz_gen += 1
+            return RealCondition.notify(self, n)
+
+        def notify_all(self):
+            self._vz_gen += 1
+            return RealCondition.notify_all(self)
+
+        def _vz_wait(self, enabled, label):
+            self.release()
+            try:
+                S.timed_waits += 1
+                S.yield_(enabled, label)
+            finally:
+                self.acquire()
+
+        def wait(self, timeout=None):
+            if threading.get_ident() not in S.threads:
+                return RealCondition.wait(self, timeout)
+            gen = self._vz_gen
+            self._vz_wait(lambda: timeout is not None or self._vz_gen != gen, 'cond_wait')
+            return self._vz_gen != gen
+
+        def wait_for(self, predicate, timeout=None):
+            if threading.get_ident() not in S.threads:
+                return RealCondition.wait_for(self, predicate, timeout)
+            if not predicate():
+                self._vz_wait(lambda: timeout is not None or bool(predicate()), 'cond_wait_for')
+            return predicate()
 
     class IQueue(RealQueue):
         def __init__(self, maxsize=0):
             super().__init__(S.capacity if S.capacity is not None else maxsize)
+            self.not_empty, self.not_full, self.all_tasks_done = ICond(self.mutex), ICond(self.mutex), ICond(self.mutex)
             S.queues.append(self)
 
         def put(self, item, *a, **k):
-            S.yield_(lambda: self.maxsize <= 0 or self.qsize() < self.maxsize, 'put')
-            return RealQueue.put(self, item, *a, **k)
+            timed = _timed(a, k)
+            S.yield_(lambda: timed or self.maxsize <= 0 or self.qsize() < self.maxsize, 'put')
+            if timed and 0 < self.maxsize <= self.qsize():
+                S.timeouts_fired += 1
+                raise _queue.Full
+            return RealQueue.put(self, item)
 
         def get(self, *a, **k):
-            S.yield_(lambda: self.qsize() > 0, 'get')
-            item = RealQueue.get(self, *a, **k)
+            timed = _timed(a, k)
+            S.yield_(lambda: timed or self.qsize() > 0, 'get')
+            if timed and self.qsize() == 0:
+                S.timeouts_fired += 1
+                raise _queue.Empty
+            item = RealQueue.get(self)
             S.note_got(item)
             return item
+
+        def put_nowait(self, item):
+            return self.put(item, block=False)
+
+        def get_nowait(self):
+            return self.get(block=False)
 
         def task_done(self):
             S.yield_(lambda: True, 'task_done')
